@@ -112,13 +112,25 @@ def brute(doms, cons, limit):
     return occ
 
 
+def search_doms(doms, cons):
+    """Domains the real search will enumerate, in variable order, as far as they matter for a bound on the number of
+    solveRecursive calls.  With an empty domain somewhere the C++ arc consistency gives no guarantee (it reads the
+    bound -1 from an empty set), and the search enumerates every earlier variable before it reaches the empty one:
+    use the initial domains up to and including the first empty one."""
+    if not doms: return []
+    if not all(doms):
+        k = next(i for i, s in enumerate(doms) if not s)
+        return [set(s) for s in doms[:k + 1]]
+    # self-loops are left out: the C++ work list does not re-queue a constraint on itself, so `v <= v - 3` is
+    # propagated once only and the search does the rest
+    d = arc(doms, [c for c in cons if c[0] != c[1]])
+    return [] if d is None else d
+
+
 def est_nodes(doms, cons, cap):
-    """Upper bound on the number of solveRecursive calls: prefix products of the arc-consistent domain sizes."""
-    if not doms: return 0
-    d = arc(doms, cons) if all(doms) else None
-    if d is None: return 0
+    """Upper bound on the number of solveRecursive calls: prefix products of the domain sizes."""
     tot, prod = 0, 1
-    for s in d:
+    for s in search_doms(doms, cons):
         tot += prod
         prod *= len(s)
         if tot > cap: return tot
@@ -244,7 +256,7 @@ def shrink_to_cap(r, calls, node_cap):
         if s[0] != "ok": return calls
         _, doms, cons, _ = s
         if est_nodes(doms, cons, node_cap) <= node_cap: return calls
-        d = arc(doms, cons)
+        d = search_doms(doms, cons)
         v = max(range(len(d)), key=lambda i: len(d[i]))
         vs = sorted(d[v])
         if len(vs) <= 1: return calls
@@ -633,7 +645,7 @@ def run(ctx):
                         "BitUtil::firstBit/lastBit/bitCount are tied to the model's lowest/highest/card by the exhaustive single-bit + boundary differential only"]
     run_bitset(ctx, quick)
     if quick:
-        plan = [("random", 24, 400, 1500), ("kernel", 6, 300, 1500), ("prefs", 6, 50, 1000), ("manycons", 2, 150, 800), ("contract", 2, 300, 0)]
+        plan = [("random", 50, 400, 1500), ("kernel", 8, 300, 1500), ("prefs", 8, 50, 1000), ("manycons", 3, 150, 800), ("contract", 2, 300, 0)]
         brute_limit, procs = 3000, 4
     else:
         plan = [("random", 480, 2500, 20000), ("kernel", 120, 1500, 20000), ("prefs", 60, 300, 5000), ("manycons", 24, 500, 5000), ("contract", 12, 1500, 0)]
